@@ -745,7 +745,7 @@ func (s *State) applyFunction(name string, fn object.Object, args []object.Objec
 	if !ok {
 		return s.NewError("not a function: " + fn.Type().String() + ":" + fn.Inspect())
 	}
-	if g := s.env.FuncGeneration(); g != s.cacheGen {
+	if g := s.rootEnv.FuncGeneration(); g != s.cacheGen { // (from the root: under recursion s.env's chain is as long as the recursion is deep)
 		// a top level function was redefined: memoized results that called it are stale.
 		s.cache = NewCache()
 		s.cacheGen = g
@@ -791,7 +791,7 @@ func (s *State) applyFunction(name string, fn object.Object, args []object.Objec
 			log.Warnf("output: %v", err)
 		}
 	}
-	if after != before || s.env.FuncGeneration() != gen {
+	if after != before || s.rootEnv.FuncGeneration() != gen {
 		// (or a top level function was redefined during this call: what it computed with the old one is stale)
 		log.Debugf("Cache miss for %s %v, %d get misses", function.CacheKey, args, after-before)
 		// Propagate to the caller: it too depended on something that isn't fixed for a given cache key
